@@ -1,10 +1,59 @@
 """C17 -- beacons to sign (spec/beacon)."""
 import os
+import re
+import shutil
+import subprocess
+import time
 
 import vlib
 from checks.common import Check
 
 PROP = "C17"
+
+
+DEFS = ["SatSub", "Max", "Core", "TxAdjStep", "BlkAdjStep", "TxBeacon", "BlkBeacon"]
+
+
+def _defs(path):
+    text = open(path).read()
+    out = {}
+    for d in DEFS:
+        m = re.search(r"^%s\(.*?\)\s*==.*$" % d, text, flags=re.M)
+        out[d] = re.sub(r"\s+", " ", m.group(0)).strip() if m else None
+    return out
+
+
+def unbounded(c, tier):
+    """The arithmetic clauses for ALL naturals, symbolically (Apalache, spec/beacon/BeaconUnbounded.tla: the same
+    definitions as Beacon.tla, one arbitrary state). An undecided run (time-out, tool missing) is recorded, not an error;
+    a refuted clause would be a counterexample to the MODEL and is reported as a tool error (the conformance stages decide
+    about the code)."""
+    spec = os.path.join(vlib.SPEC, "beacon")
+    a, b = _defs(os.path.join(spec, "Beacon.tla")), _defs(os.path.join(spec, "BeaconUnbounded.tla"))
+    if a != b or None in a.values():
+        raise vlib.ToolError(f"BeaconUnbounded.tla no longer carries the definitions of Beacon.tla: {a} vs {b}")
+    st = {}
+    invs = [("RespectsMargin", 120), ("Monotone", 120)] + ([("WholeSteps", 900)] if tier == "thorough" else [])
+    out = os.path.join(c.work, "apalache")
+    for inv, tmo in invs:
+        t0 = time.time()
+        if not shutil.which("apalache-mc"):
+            st[inv] = {"outcome": "not run (apalache-mc not found)"}
+            continue
+        try:
+            p = subprocess.run(["apalache-mc", "check", "--cinit=ConstInit", f"--inv={inv}", "--length=0", f"--out-dir={out}",
+                                "BeaconUnbounded.tla"], cwd=spec, capture_output=True, text=True, timeout=tmo)
+            m = re.search(r"The outcome is: (\w+)", p.stdout)
+            outcome = m.group(1) if m else "undecided"
+        except subprocess.TimeoutExpired:
+            outcome = "undecided (time-out)"
+        st[inv] = {"outcome": outcome, "wall_s": round(time.time() - t0, 1)}
+        vlib.log(f"[{PROP}] unbounded {inv}: {outcome} ({st[inv]['wall_s']}s)")
+        if outcome == "Error":
+            raise vlib.ToolError(f"Apalache refutes {inv} on BeaconUnbounded.tla (a counterexample to the model)")
+    shutil.rmtree(out, ignore_errors=True)
+    c.cov["stages"]["MC:unbounded (Apalache, all naturals)"] = st
+    c.cov["unbounded_note"] = ("TxOnRangeBoundary is not decided by Apalache within 5 min (nonlinear divisor): bounded TLC box only")
 
 
 def run(tier, seed):
@@ -18,6 +67,7 @@ def run(tier, seed):
     # MC: the implementation-shaped function on an exhaustive box
     cfg = "MC_Beacon_quick.cfg" if tier == "quick" else "MC_Beacon_thorough.cfg"
     c.mc("beacon", "MC_Beacon", cfg, workers=8, timeout=3000, vacuity=["Advance"])
+    unbounded(c, tier)
     # BUILD + RUN the real code
     c.build("vh-common", ["c17_beacon"])
     trace = os.path.join(c.work, "c17.ndjson")
